@@ -303,10 +303,12 @@ def r4(ctx):
 
 
 def r5(ctx):
-    from rules import C04
+    from rules import C04, C03
     C04.r4(ctx)
     C04.r5(ctx)
     C04.r6(ctx)
+    # a request reaches the manager of ITS exchange: the engine-side link table is addressed by the exchange's own index (= C03.R7)
+    C03.r7(ctx)
 
 
 RULES = [
